@@ -46,11 +46,59 @@ pub fn plan(id: &str) -> Option<Plan> {
             thorough_runs: 30_000,
             rule: "seeded runs; one evaluation = one accepted or health-rejected borrow/withdraw (main timeline or boundary fork) judged against the independent rational risk engine; distinct = ix kind x verdict x #positions x e-mode x zeroed-collateral x isolated x fork",
         },
+        "C01" => Plan {
+            id: "C01",
+            level: "exploration",
+            profiles: vec![MKT, MKT_F],
+            quick_runs: 1200,
+            thorough_runs: 30_000,
+            rule: "seeded runs of the market profile (fault-free and fault-injecting halves); one evaluation = one (successful instruction, custodied bank) pair whose books or vault changed: dS >= -derived allowance; distinct = ix kind x utilisation decile x share-value class x magnitude decade",
+        },
+        "C03" => Plan {
+            id: "C03",
+            level: "exploration",
+            profiles: vec![MKT, MKT_F],
+            quick_runs: 1200,
+            thorough_runs: 30_000,
+            rule: "seeded runs of the market profile (fault-free and fault-injecting halves); one evaluation = one successful deposit/withdraw/borrow/repay judged from the user's side at post-accrual share values, plus zero-time wealth per (authority, mint); distinct = ix kind x all-flag x fractional-value class x share-value class",
+        },
+        "C06" => Plan {
+            id: "C06",
+            level: "exploration",
+            profiles: vec![MKT, MKT_F],
+            quick_runs: 1200,
+            thorough_runs: 30_000,
+            rule: "seeded runs of the market profile (fault-free and fault-injecting halves); one evaluation = one observed accrual (share value change) with monotonicity, fee sign, conservation and curve checks; each main-timeline handler tx with stale banks is re-executed on a fork after an explicit accrue and the resulting banks/vaults must be byte-identical; distinct = ix kind x utilisation decile x dt decade x fee class",
+        },
+        "C17" => Plan {
+            id: "C17",
+            level: "exploration",
+            profiles: vec![MKT, MKT_F],
+            quick_runs: 1200,
+            thorough_runs: 30_000,
+            rule: "seeded runs of the market profile (fault-free and fault-injecting halves); one evaluation = one successful deposit/borrow/withdraw that moved totals, or a capacity/utilisation rejection; boundary actor probes capacity -2..+2 on forks; distinct = ix kind x verdict x limit class x up-to-limit flag",
+        },
+        "C05" => Plan {
+            id: "C05",
+            level: "exploration",
+            profiles: vec![MKT, MKT_F],
+            quick_runs: 1600,
+            thorough_runs: 40_000,
+            rule: "seeded runs of the market profile (fault-free and fault-injecting halves); one evaluation = one classic liquidation (accepted, or rejected with a liquidation error), judged against the reference: eligibility, health improvement, no flips, liquidator health, 95/97.5/2.5 split; boundary liquidator bisects the largest acceptable seize amount on forks; distinct = verdict x decimals pair x liquidator prior position x fork",
+        },
+        "C07" => Plan {
+            id: "C07",
+            level: "exploration",
+            profiles: vec![MKT, MKT_F],
+            quick_runs: 1600,
+            thorough_runs: 40_000,
+            rule: "seeded runs of the market profile (fault-free and fault-injecting halves); one evaluation = one bankruptcy settlement (accepted or rejected) judged against the reference bankruptcy spec in its three insurance regimes, plus killed-state permanence checked in every later state; distinct = regime x signer class x #depositors",
+        },
         _ => return None,
     })
 }
 
-pub const ALL: &[&str] = &["C02", "C04", "C16"];
+pub const ALL: &[&str] = &["C01", "C02", "C03", "C04", "C05", "C06", "C07", "C16", "C17"];
 
 pub const ASSUMPTIONS: &[&str] = &[
     "native x86-64 build of the program (same Rust source, overflow-checks on) instead of SBF; compute-unit, heap and stack limits are not modelled",
